@@ -1,36 +1,117 @@
 /-
-Model/Validators.lean — input validation at assignment (C17): a grammar of Python values and the
-generic vector validator `check_format_input_vector` / `check_array_shape` (as fixed), configured
-per attribute by the generated table Gen/Attr.lean.
-`np.array(inp, dtype=float)` is modelled as: nested sequences must be rectangular and every leaf
-a number (strings and None leaves are not float-compatible in this grammar).
+Model/Validators.lean — input validation at assignment (C17).
+
+A grammar of Python values (`PyVal`) and, branch by branch, the validators of
+magpylib/_src/input_checks.py:
+  is_array_like, make_float_array, check_array_shape            (building blocks)
+  check_format_input_scalar, check_format_input_vector, check_format_input_vector2,
+  check_format_input_vertices, check_format_input_cylinder_segment
+and the setters that compose them with extra conditions:
+  Sensor.pixel, Sensor.handedness (class_Sensor.py), Triangle.vertices, Tetrahedron.vertices,
+  Polyline.vertices, CylinderSegment.dimension, BaseGeo.position (validation part).
+The control-flow skeleton of each of these functions is regenerated from the source on every run
+(Gen/Attr.lean: `skeleton`, `segConds`, `inner`, `table`) and pinned by `decide` theorems in Props/C17.lean.
+
+ASSUMPTION (external function, validated only by the `valid` correspondence stream):
+`np.array(x, dtype=float)` succeeds exactly on rectangular nestings of float-convertible leaves and on
+numeric ndarrays; it returns the shape of the nesting and the leaves in row-major order.  Float-convertible
+leaves are: int/float/numpy real scalars (`num`), Python bool and numpy.bool_ (1.0 / 0.0), `None` (nan) and
+strings that are plain integer literals (optional sign, digits); complex numbers, other strings and other
+objects are not.  Outside the grammar: non-integer floats, inf, strings such as "1e3"/" 2 "/"nan" that
+Python's float() parses, bytes, integers beyond the float range, nestings deeper than numpy's 64 axes,
+objects with `__float__`/`__array__`.
 -/
 import MagpyVerif.Gen.Attr
 
 namespace MagpyVerif.Valid
 
+/-- float64 values that occur: an integer-valued finite number, or nan -/
+inductive FVal where
+  | fin (v : Int)
+  | nan
+  deriving Repr, DecidableEq
+
+namespace FVal
+/-- IEEE comparison `a < b`: false as soon as one side is nan -/
+def lt : FVal → FVal → Bool
+  | fin a, fin b => decide (a < b)
+  | _, _ => false
+/-- IEEE comparison `a <= b` -/
+def le : FVal → FVal → Bool
+  | fin a, fin b => decide (a ≤ b)
+  | _, _ => false
+def sub : FVal → FVal → FVal
+  | fin a, fin b => fin (a - b)
+  | _, _ => nan
+def isNan : FVal → Bool
+  | nan => true
+  | _ => false
+end FVal
+
+/-- the value grammar -/
 inductive PyVal where
   | none
+  /-- Python `bool` -/
+  | bool (b : Bool)
+  /-- `int`, `float`, `numpy.int64`, `numpy.float64` carrying an integer value -/
   | num (v : Int)
-  | str
+  /-- `numpy.bool_` -/
+  | npbool (b : Bool)
+  /-- Python `complex` -/
+  | cplx
+  | str (s : String)
+  /-- any other object (dict, `object()`) -/
+  | obj
+  /-- list or tuple -/
   | seq (xs : List PyVal)
+  /-- ndarray of an integer or float dtype: shape and row-major data -/
+  | arr (shape : List Nat) (data : List Int)
   deriving Repr
 
 inductive Err where
+  /-- `MagpylibBadUserInput` -/
   | badUserInput
+  /-- any other exception type -/
+  | foreign (exc : String)
   deriving Repr, DecidableEq
+
+/-- value of a nonempty list of decimal digits -/
+def digitsVal (cs : List Char) : Option Nat :=
+  if cs.isEmpty then Option.none
+  else cs.foldl (fun acc c => acc.bind fun n => if c.isDigit then some (n * 10 + (c.toNat - '0'.toNat)) else Option.none) (some 0)
+
+/-- `float(s)` for the strings of the grammar: optional sign followed by digits -/
+def strFloat (s : String) : Option Int :=
+  match s.toList with
+  | '-' :: r => (digitsVal r).map fun n => -(n : Int)
+  | '+' :: r => (digitsVal r).map fun n => (n : Int)
+  | r => (digitsVal r).map fun n => (n : Int)
+
+/-- the float numpy stores for a leaf of a nested sequence (`none`: not float-convertible) -/
+def entryVal : PyVal → Option FVal
+  | .none => some .nan
+  | .bool b => some (.fin (if b then 1 else 0))
+  | .num v => some (.fin v)
+  | .npbool b => some (.fin (if b then 1 else 0))
+  | .str s => (strFloat s).map .fin
+  | _ => Option.none
 
 mutual
 /-- shape of `np.array(v, dtype=float)` when the conversion succeeds -/
 def shapeOf : PyVal → Option (List Nat)
-  | .none => Option.none
-  | .str => Option.none
-  | .num _ => some []
   | .seq xs =>
     match shapesOf xs with
     | Option.none => Option.none
     | some [] => some [0]
     | some (s :: ss) => if ss.all (· == s) then some ((ss.length + 1) :: s) else Option.none
+  | .arr sh _ => some sh
+  | .none => some []
+  | .bool _ => some []
+  | .num _ => some []
+  | .npbool _ => some []
+  | .str s => if (strFloat s).isSome then some [] else Option.none
+  | .cplx => Option.none
+  | .obj => Option.none
 def shapesOf : List PyVal → Option (List (List Nat))
   | [] => some []
   | x :: xs =>
@@ -39,45 +120,247 @@ def shapesOf : List PyVal → Option (List (List Nat))
     | _, _ => Option.none
 end
 
+/-- number of elements of an array of the given shape -/
+def prod : List Nat → Nat
+  | [] => 1
+  | n :: s => n * prod s
+
 mutual
-/-- all numeric leaves -/
-def leaves : PyVal → List Int
-  | .none => []
-  | .str => []
-  | .num v => [v]
-  | .seq xs => leavesL xs
-def leavesL : List PyVal → List Int
+/-- the entries of `np.array(v, dtype=float)` in row-major order (an ndarray has exactly `prod shape`
+entries: the data list is read by index, which for a well-formed array is the list itself) -/
+def flat : PyVal → List FVal
+  | .seq xs => flatL xs
+  | .arr sh d => (List.range (prod sh)).map fun i => .fin (d.getD i 0)
+  | .none => [.nan]
+  | .bool b => [.fin (if b then 1 else 0)]
+  | .num v => [.fin v]
+  | .npbool b => [.fin (if b then 1 else 0)]
+  | .str s => match strFloat s with
+    | some v => [.fin v]
+    | Option.none => []
+  | .cplx => []
+  | .obj => []
+def flatL : List PyVal → List FVal
   | [] => []
-  | x :: xs => leaves x ++ leavesL xs
+  | x :: xs => flat x ++ flatL xs
 end
 
-/-- what an accepted assignment stores (shape and entries of the float copy), `none` = None -/
-abbrev Stored := Option (List Nat × List Int)
+/-- a float ndarray -/
+structure NDArr where
+  shape : List Nat
+  data : List FVal
+  deriving Repr, DecidableEq
 
-/-- `check_format_input_vector` configured by a row of the generated table -/
+/-- `inp.size` -/
+def NDArr.size (a : NDArr) : Nat := prod a.shape
+
+/-- what an accepted assignment stores -/
+inductive Stored where
+  | none
+  | scalar (x : FVal)
+  | array (a : NDArr)
+  | text (s : String)
+  deriving Repr, DecidableEq
+
+/-! ### building blocks -/
+
+/-- `isinstance(inp, (list, tuple, np.ndarray))` -/
+def isArrayLike : PyVal → Bool
+  | .seq _ => true
+  | .arr _ _ => true
+  | _ => false
+
+/-- `is_array_like(inp, msg)` -/
+def isArrayLikeCheck (v : PyVal) : Except Err Unit :=
+  if !isArrayLike v then .error .badUserInput else .ok ()
+
+/-- `make_float_array(inp, msg)`: every exception of `np.array(inp, dtype=float)` becomes the library's error -/
+def makeFloatArray (v : PyVal) : Except Err NDArr :=
+  match shapeOf v with
+  | Option.none => .error .badUserInput
+  | some sh => .ok ⟨sh, flat v⟩
+
+/-- `check_array_shape(inp, dims, shape_m1, length, msg)`; `shapeM1 = -1` stands for "any", `length = 0` for None.
+`inp.shape[-1]` and `len(inp)` of a 0-d array raise IndexError / TypeError. -/
+def checkArrayShape (a : NDArr) (dims : List Nat) (shapeM1 : Int) (length : Nat) : Except Err Unit :=
+  if dims.contains a.shape.length then
+    let lenStep : Except Err Unit :=
+      if length == 0 then .ok ()
+      else match a.shape.head? with
+        | Option.none => .error (.foreign "TypeError")
+        | some n => if n == length then .ok () else .error .badUserInput
+    if shapeM1 == -1 then lenStep
+    else match a.shape.getLast? with
+      | Option.none => .error (.foreign "IndexError")
+      | some l => if (l : Int) == shapeM1 then lenStep else .error .badUserInput
+  else .error .badUserInput
+
+/-- `isinstance(inp, numbers.Number)` -/
+def isNumber : PyVal → Bool
+  | .bool _ => true
+  | .num _ => true
+  | .cplx => true
+  | _ => false
+
+/-- `float(inp)` for an instance of numbers.Number -/
+def pyFloat : PyVal → Except Err FVal
+  | .bool b => .ok (.fin (if b then 1 else 0))
+  | .num v => .ok (.fin v)
+  | _ => .error (.foreign "TypeError")
+
+/-! ### validators -/
+
+/-- `check_format_input_scalar(inp, sig_name, sig_type, allow_None, forbid_negative)` -/
+def checkScalar (allowNone forbidNegative : Bool) (v : PyVal) : Except Err Stored :=
+  match allowNone, v with
+  | true, .none => .ok .none
+  | _, _ =>
+    if !isNumber v then .error .badUserInput
+    else match pyFloat v with
+      | .error e => .error e
+      | .ok x =>
+        if forbidNegative && x.lt (.fin 0) then .error .badUserInput
+        else .ok (.scalar x)
+
+/-- `check_format_input_vector` configured by a row of the generated table (`reshape` = `(-1, 3)`) -/
 def checkVector (cfg : Gen.Attr.Row) (v : PyVal) : Except Err Stored :=
-  match v with
-  | .none => if cfg.allowNone then .ok Option.none else .error .badUserInput
-  | .num _ => .error .badUserInput          -- is_array_like
-  | .str => .error .badUserInput
-  | .seq xs =>
-    match shapeOf (.seq xs) with
-    | Option.none => .error .badUserInput    -- make_float_array
-    | some sh =>
-      let okDim := cfg.dims.contains sh.length
-      let okLast := cfg.shapeM1 == -1 || (sh.getLast?.map (fun (k : Nat) => (k : Int))) == some cfg.shapeM1
-      let okLen := cfg.length == 0 || sh.head? == some cfg.length
-      if !(okDim && okLast && okLen) then .error .badUserInput
-      else
-        let ls := leaves (.seq xs)
-        if cfg.reshape && ls.isEmpty then .error .badUserInput
-        else if cfg.forbidNegative0 && ls.any (· ≤ 0) then .error .badUserInput
-        else .ok (some (if cfg.reshape then [ls.length / 3, 3] else sh, ls))
+  match cfg.allowNone, v with
+  | true, .none => .ok .none
+  | _, _ =>
+    match isArrayLikeCheck v with
+    | .error e => .error e
+    | .ok () =>
+    match makeFloatArray v with
+    | .error e => .error e
+    | .ok a =>
+    match checkArrayShape a cfg.dims cfg.shapeM1 cfg.length with
+    | .error e => .error e
+    | .ok () =>
+      if cfg.reshape then
+        if a.size == 0 then .error .badUserInput
+        else if a.size % 3 != 0 then .error (.foreign "ValueError")   -- np.reshape(inp, (-1, 3))
+        else .ok (.array ⟨[a.size / 3, 3], a.data⟩)
+      else if cfg.forbidNegative0 && a.data.any (fun x => x.le (.fin 0)) then .error .badUserInput
+      else .ok (.array a)
 
-/-- setter semantics: validate, then store; a rejected value leaves the attribute as it was -/
-def setAttr (cfg : Gen.Attr.Row) (old : Stored) (v : PyVal) : Stored × Option Err :=
-  match checkVector cfg v with
+/-- the loop `for d1, d2 in zip(inp.shape, shape): if d2 is not None: if d1 != d2: raise ValueError` -/
+def zipShapeCheck : List Nat → List (Option Nat) → Except Err Unit
+  | d1 :: ds, d2 :: ss =>
+    match d2 with
+    | some k => if d1 != k then .error (.foreign "ValueError") else zipShapeCheck ds ss
+    | Option.none => zipShapeCheck ds ss
+  | _, _ => .ok ()
+
+/-- `check_format_input_vector2(inp, shape, param_name)` -/
+def checkVector2 (shape : List (Option Nat)) (v : PyVal) : Except Err Stored :=
+  match isArrayLikeCheck v with
+  | .error e => .error e
+  | .ok () =>
+  match makeFloatArray v with
+  | .error e => .error e
+  | .ok a =>
+  match zipShapeCheck a.shape shape with
+  | .error e => .error e
+  | .ok () => .ok (.array a)
+
+/-- the call of check_format_input_vector inside check_format_input_vertices -/
+def verticesCfg : Gen.Attr.Row :=
+  ⟨"input_checks", "check_format_input_vertices", "check_format_input_vector", [2], 3, 0, true, false, false, false⟩
+
+/-- `check_format_input_vertices(inp)` -/
+def checkVertices (v : PyVal) : Except Err Stored :=
+  match checkVector verticesCfg v with
+  | .error e => .error e
+  | .ok (.array a) =>
+    match a.shape.head? with
+    | Option.none => .error (.foreign "IndexError")          -- inp.shape[0]
+    | some n => if n < 2 then .error .badUserInput else .ok (.array a)
+  | .ok s => .ok s
+
+/-- the call of check_format_input_vector inside check_format_input_cylinder_segment -/
+def segmentCfg : Gen.Attr.Row :=
+  ⟨"input_checks", "check_format_input_cylinder_segment", "check_format_input_vector", [1], 5, 0, true, false, false, false⟩
+
+/-- `check_format_input_cylinder_segment(inp)` -/
+def checkCylSeg (v : PyVal) : Except Err Stored :=
+  match checkVector segmentCfg v with
+  | .error e => .error e
+  | .ok (.array a) =>
+    match a.data with
+    | [r1, r2, h, phi1, phi2] =>
+      let case2 := r2.lt r1                               -- r1 > r2
+      let case3 := phi2.lt phi1                           -- phi1 > phi2
+      let case4 := (FVal.fin 360).lt (phi2.sub phi1)      -- (phi2 - phi1) > 360
+      let case5 := r1.lt (.fin 0) || r2.le (.fin 0) || h.le (.fin 0)
+      if case2 || case3 || case4 || case5 then .error .badUserInput else .ok (.array a)
+    | _ => .error (.foreign "ValueError")                 -- tuple unpacking
+  | .ok s => .ok s
+
+/-! ### setters -/
+
+def pixelCfg : Gen.Attr.Row :=
+  ⟨"Sensor", "pixel", "check_format_input_vector", [1, 2, 3, 4, 5, 6, 7, 8, 9, 10, 11, 12, 13, 14, 15, 16, 17, 18, 19], 3, 0, true, false, false, false⟩
+def triangleCfg : Gen.Attr.Row :=
+  ⟨"Triangle", "vertices", "check_format_input_vector", [2], 3, 3, true, false, false, false⟩
+def tetrahedronCfg : Gen.Attr.Row :=
+  ⟨"Tetrahedron", "vertices", "check_format_input_vector", [2], 3, 4, true, false, false, false⟩
+def positionCfg : Gen.Attr.Row :=
+  ⟨"BaseGeo", "position", "check_format_input_vector", [1, 2], 3, 0, false, false, false, true⟩
+
+/-- the validation in `Sensor.pixel`'s setter: the vector check, then `pixel is not None and pixel.size == 0` -/
+def checkPixel (v : PyVal) : Except Err Stored :=
+  match checkVector pixelCfg v with
+  | .error e => .error e
+  | .ok (.array a) => if a.size == 0 then .error .badUserInput else .ok (.array a)
+  | .ok s => .ok s
+
+/-- the validation in `Sensor.handedness`'s setter: `isinstance(val, str) and val in {"right", "left"}` -/
+def checkHandedness (v : PyVal) : Except Err Stored :=
+  match v with
+  | .str s => if s == "right" || s == "left" then .ok (.text s) else .error .badUserInput
+  | _ => .error .badUserInput
+
+/-- a setter of the form `self._attr = check(value)` (or: local result, extra test, then assignment):
+the exception leaves the method before the assignment, so a rejected value leaves the attribute as it was -/
+def setAttrWith (check : PyVal → Except Err Stored) (old : Stored) (v : PyVal) : Stored × Option Err :=
+  match check v with
   | .ok s => (s, Option.none)
   | .error e => (old, some e)
+
+/-- setter semantics for a vector attribute of the generated table -/
+def setAttr (cfg : Gen.Attr.Row) (old : Stored) (v : PyVal) : Stored × Option Err :=
+  setAttrWith (checkVector cfg) old v
+
+/-- the two validated attributes of a Sensor -/
+structure SensorState where
+  pixel : Stored
+  handedness : Stored
+  deriving Repr, DecidableEq
+
+def SensorState.setPixel (st : SensorState) (v : PyVal) : SensorState × Option Err :=
+  match checkPixel v with
+  | .ok s => ({ st with pixel := s }, Option.none)
+  | .error e => (st, some e)
+
+def SensorState.setHandedness (st : SensorState) (v : PyVal) : SensorState × Option Err :=
+  match checkHandedness v with
+  | .ok s => ({ st with handedness := s }, Option.none)
+  | .error e => (st, some e)
+
+/-- position path and length of the orientation path of a BaseGeo object -/
+structure GeoState where
+  position : Stored
+  oriLen : Nat
+  deriving Repr, DecidableEq
+
+/-- `BaseGeo.position` setter: validate, store, then pad/slice the orientation path to the new length
+(children are the subject of C10) -/
+def GeoState.setPosition (st : GeoState) (v : PyVal) : GeoState × Option Err :=
+  match checkVector positionCfg v with
+  | .ok s =>
+    (⟨s, match s with
+         | .array a => a.shape.headD 0
+         | _ => st.oriLen⟩, Option.none)
+  | .error e => (st, some e)
 
 end MagpyVerif.Valid
